@@ -237,6 +237,7 @@ Section S.
     intro H. injection H as <- <-. exists b. split; [reflexivity|].
     unfold radmsg2buf in R. cbv zeta in R.
     destruct (Consts.RADMSG2BUF_MAX <? _); [discriminate|].
+    destruct (existsb _ _); [discriminate|].
     set (buf0 := radius_header _ _ _ _ ++ _) in R.
     assert (B0 : nth 1 buf0 0 = id /\ (2 <= length buf0)%nat).
     { subst buf0. unfold radius_header. cbn [app nth length m_id set_id]. split; [reflexivity | lia]. }
